@@ -220,6 +220,11 @@ class Check(common.Check):
             c = {'k': name, 'a': [self.num(rng, t) for t in tys]}
         if approx:
             c['approx'] = True
+        # exact Python ints beyond 2^53: the int kernels must not detour through binary64
+        if c['k'] in LAW3 + LAW2B + ('mod',) and all(is_int(x) for x in c['a']) and rng.random() < 0.3:
+            big = rng.choice([3 ** 35, 2 ** 60, 2 ** 53, 2 ** 64, 10 ** 18 + 7, 7 ** 23]) + rng.randint(-9, 9)
+            c['a'][0] = fnum(rng.choice([-1, 1]) * big, True)
+            c.pop('approx', None)
         return c
 
 
